@@ -22,6 +22,7 @@ func init() {
 }
 
 func runC07(c *Ctx, r *Report) {
+	defer round8(c, r, "C07")
 	l := c.L
 	defer c18r8(c, r) // print-query prints the query as it was when the action ran
 	defer c07r7(c, r)
